@@ -60,6 +60,9 @@ TEMPLATES = [
     ["build", "caller_edits_inputs", "process_orig"],
     ["build", "deepcopy", "caller_edits_inputs", "process_copy", "process_orig"],
     ["run_sim", "caller_edits_inputs", "saveload_result"],
+    ["combined_scenario_run", "run_sim"],
+    ["run_sim", "sampled_sims_no_uncertainty"],
+    ["build", "pickle", "combined_scenario_run", "process_copy", "process_orig"],
 ]
 
 _CORPUS = None
@@ -382,6 +385,19 @@ def run(ch, idx, tier):
                 bump("fault:caller_edits_its_inputs_after_build")
                 # restore the caller's objects for whoever shares them; the built model / result must not have noticed
                 restore.append(True)
+            elif op == "combined_scenario_run":
+                if edited.get(c["k"]):
+                    continue
+                cs = at.CombinedScenario(name="combined", instructions=instr)
+                R = cs.run(P, parset, progset, store_results=False)
+                check_result(c, R, "CombinedScenario.run")
+            elif op == "sampled_sims_no_uncertainty":
+                # with no uncertainty entered anywhere a sampled run is the plain run (serial path, 2 samples)
+                if edited.get(c["k"]) or c["name"] in ("uncertainty", "uncertainty_low") or (_CORPUS[c["name"]].meta.get("generated_spec") or {}).get("uncertainty"):
+                    continue
+                rs = P.run_sampled_sims(parset, progset=progset, progset_instructions=instr, n_samples=2)
+                for r_ in rs:
+                    check_result(c, r_[0], "run_sampled_sims(no uncertainty)")
             elif op == "scenario_run":
                 R = c["scen"].run(P, P.parsets[0], store_results=False)
                 check_result(c, R, "Scenario.run")
